@@ -2,6 +2,7 @@ package main
 
 import (
 	"fmt"
+	"os"
 	"path/filepath"
 	"regexp"
 	"strings"
@@ -75,6 +76,15 @@ func verifyCrashJobs(c *core.Ctx, prop, drv, cwd string, jobs []*crashJob) {
 	for i, j := range jobs {
 		blocks[i] = stageA(j)
 		j.matched = -1
+		if j.seed%5 == 0 {
+			// directories without a data file next to the database (a backup
+			// copy, lost+found): start-up has to skip them and go on to the
+			// databases, in whatever order the directory lists them
+			for _, d := range []string{"0backup", "lost+found", "zz"} {
+				os.MkdirAll(filepath.Join(j.dir, "data", d), 0755)
+			}
+			c.Count("images_with_stray_directories", 1)
+		}
 	}
 	outs := runBlocks(drv, cwd, blocks, 20*time.Second)
 	var stageB []*crashJob
